@@ -345,6 +345,8 @@ def r8(chk, ctx, sp):
 
 
 def run(chk, ctx):
+    from . import generic
+    generic.definite_assignment(chk, ctx, ['state_engine_paths'], "C13.DA")   # no local is read before it is bound (UnboundLocalError = an arbitrary exception)
     sp = ctx.mod("state_engine_paths")
     r1(chk, ctx, sp)
     r2(chk, ctx, sp)
